@@ -27,7 +27,8 @@ PROP = {
             "registered to post further handlers when they run (chains), PollOne on the loop's locked OS thread; observations: which "
             "handlers ran in which order, on which OS thread, Pending()/Posted() after every call; every sequence of 5 (7) steps over "
             "{post by 0, post by 1, nest, poll} exhaustively; non-trivial = a batch of several handlers, a nested Post, a queue of "
-            "several, an idle poll; direct mode: 8 (16) goroutines x 200 (400) posts with 0-3 nested generations against the running loop "
+            "several, an idle poll; direct mode: 8 (16) goroutines x 200 (400) posts with 0-3 nested generations against the running loop, "
+            "1500 (20000) bursts of 12 goroutines x 4 posts released together, 8 goroutines posting while the loop goroutine arms and cancels a read, "
             "(every handler exactly once, on the loop thread, per-poster order, Pending() counts the running handler, counters zero at "
             "quiescence), a ping-pong stage in which every Post finds the loop blocked in its wait, and the library's own hand-off: "
             "AsyncHandshake (conforming mock server / refused dial) with the loop stopped - until the queued completion is dispatched the "
